@@ -74,32 +74,57 @@ Inductive ptok :=
 | POpqNoColon
 | PJwt (iss : nat) (sig_ok expired : bool) (jti : sid) (sub azp : string)
 | PRaw (id : sid)
-| PExt (cls : extcls) (sub : string).
+| PExt (cls : extcls) (sub : string)
+(* a well-formed JWS of the provider's issuer [iss] signed with the EXTRA key: a key the storage
+   does not publish (a retired signing key), which a custom key set given to the provider by
+   op.WithAccessTokenKeySet / op.WithIDTokenHintKeySet may trust - for the tokens THAT option is about *)
+| PJwtX (iss : nat) (expired : bool) (jti : sid) (sub azp : string).
 
-Definition localize (host : nat) (keys_up : bool) (t : ptok) : tokstr :=
+(* Provider options that concern the key sets, in the order they are passed to NewProvider:
+   extra = the custom key set trusts the extra key (next to what the storage publishes). *)
+Inductive kopt := OptATKeys (extra : bool) | OptHintKeys (extra : bool).
+(* what the two verifiers end up trusting: is the extra key good for access tokens / for hints *)
+Record keyconf := KeyConf { k_at : bool; k_hint : bool }.
+(* NewProvider: both key sets start as the storage's keys, then every option sets ITS field *)
+Definition apply_kopt (c : keyconf) (o : kopt) : keyconf :=
+  match o with
+  | OptATKeys b => KeyConf b (k_hint c)
+  | OptHintKeys b => KeyConf (k_at c) b
+  end.
+Definition configure (opts : list kopt) : keyconf := fold_left apply_kopt opts (KeyConf false false).
+
+(* which verifier reads a token: the access-token verifier (userinfo, introspection, revocation,
+   exchange tokens declared access_token) or the id_token_hint verifier (end_session, exchange
+   tokens declared id_token) *)
+Inductive usage := UAT | UHint.
+Definition usage_of (typ : ttype) : usage := match typ with TId => UHint | _ => UAT end.
+
+Definition localize (kc : keyconf) (u : usage) (host : nat) (keys_up : bool) (t : ptok) : tokstr :=
   match t with
   | POpq id sub => Opq id sub
   | POpqNoColon => OpqNoColon
   | PJwt iss sg e jti sub azp => Jwt (iss =? host) (sg && keys_up) e jti sub azp
   | PRaw id => Raw id
   | PExt c sub => Ext c sub
+  | PJwtX iss e jti sub azp => Jwt (iss =? host) (match u with UAT => k_at kc | UHint => k_hint kc end) e jti sub azp
   end.
 
-Definition map_op {A B : Type} (f : A -> B) (o : gop A) : gop B :=
+Definition locate_op (kc : keyconf) (host : nat) (ku : bool) (o : gop ptok) : gop tokstr :=
   match o with
   | Issue r c s sc => Issue r c s sc
-  | UserInfo r t => UserInfo r (f t)
-  | Introspect r c t => Introspect r c (f t)
-  | Revoke r c t h => Revoke r c (f t) h
-  | EndSession r hint cid => EndSession r (option_map f hint) cid
+  | UserInfo r t => UserInfo r (localize kc UAT host ku t)
+  | Introspect r c t => Introspect r c (localize kc UAT host ku t)
+  | Revoke r c t h => Revoke r c (localize kc UAT host ku t) h
+  | EndSession r hint cid => EndSession r (option_map (localize kc UHint host ku) hint) cid
   | Exchange r c subj styp actor req scopes aud =>
-      Exchange r c (f subj) styp (option_map (fun p => (f (fst p), snd p)) actor) req scopes aud
+      Exchange r c (localize kc (usage_of styp) host ku subj) styp
+               (option_map (fun p => (localize kc (usage_of (snd p)) host ku (fst p), snd p)) actor) req scopes aud
   end.
 
 (* one step of a history: the host the request is sent to, whether Storage.KeySet works while it
    is served, the operation *)
-Definition located (ops : list (nat * bool * gop ptok)) : list op :=
-  map (fun x => map_op (localize (fst (fst x)) (snd (fst x))) (snd x)) ops.
+Definition located (kc : keyconf) (ops : list (nat * bool * gop ptok)) : list (gop tokstr) :=
+  map (fun x => locate_op kc (fst (fst x)) (snd (fst x)) (snd x)) ops.
 
 Inductive status := S200 | S302 | S400 | S401 | S403 | S500 | SOther.
 Record trec := TRec { tr_client : string; tr_sub : string; tr_actor : string;
@@ -140,7 +165,7 @@ Inductive actpol := ActDefault | ActNone | ActMapped | ActChain.
 Inductive latepol := LateNone | LatePlain | LateOAuth.
 Record tepolicy := TEPolicy { p_default : bool; p_force : option ttype; p_subject : option string; p_empty : bool;
                               p_verifier : bool; p_session : option string; p_act : actpol;
-                              p_nologout : string; p_late : latepol }.
+                              p_nologout : string; p_late : latepol; p_kopts : list kopt }.
   (* p_nologout: a client whose sessions the from-request storage FAILS to end
      (TerminateSessionFromRequest returns an error for it); "" = none *)
 Inductive hist_input := Hist (clients : list client) (pol : tepolicy) (ops : list (nat * bool * gop ptok)).
@@ -572,7 +597,7 @@ Fixpoint state_after (cl : list client) (s : st) (ops : list op) : st :=
 
 Definition init (pol : tepolicy) : st := (Store [] [] pol, 0).
 Definition run_hist (i : hist_input) : list out :=
-  match i with Hist cl pol ops => run cl (init pol) (located ops) end.
+  match i with Hist cl pol ops => run cl (init pol) (located (configure (p_kopts pol)) ops) end.
 
 (* ---------------------------------------------------------------- equality on observations *)
 
